@@ -32,6 +32,16 @@ CHECKS = {
     ),
 }
 
+CHECKS["C13"] = dict(
+    text=LEVEL_TEXT + "For C13: Biomolecule.update_ss_bridges + apply_patch + add_hydrogens (HG suppression) + CYS.set_state on 2..4 (thorough 5) "
+    "real CYS residues in four chain layouts and several file orders, with the SG-SG distances an arbitrary symbolic metric, so every "
+    "placement around the 2.5 A limit (including the boundary) is covered.",
+    note="Trusted: z3, symx proxies. util.distance is stubbed for SG-SG pairs (returns the symbolic metric); everything else is the real code on "
+    "structures generated from AA.xml templates. Non-isolated configurations are unconstrained by the property. N <= 5 cysteines.",
+    technique="symbolic execution of real code on z3 Real proxies (symx) + SMT verdict per path",
+    design="DESIGN.md section 3 C13",
+)
+
 ALL = [f"C{i:02d}" for i in range(1, 19)]
 
 
